@@ -28,16 +28,17 @@ class Tree:
 
 
 class State:
-    __slots__ = ("env", "base", "ver", "facts")
+    __slots__ = ("env", "base", "ver", "facts", "wrapped")
 
-    def __init__(self, env=None, base=None, ver=None, facts=None):
+    def __init__(self, env=None, base=None, ver=None, facts=None, wrapped=None):
         self.env = env if env is not None else {}
         self.base = base if base is not None else {}
         self.ver = ver if ver is not None else {}
         self.facts = facts if facts is not None else frozenset()
+        self.wrapped = wrapped if wrapped is not None else frozenset()     # results of possibly wrapping unsigned subtractions (may-set)
 
     def copy(self):
-        return State(dict(self.env), dict(self.base), dict(self.ver), self.facts)
+        return State(dict(self.env), dict(self.base), dict(self.ver), self.facts, self.wrapped)
 
 
 def sub_of(p, q):
@@ -101,6 +102,9 @@ def bool_facts(b, truth):
         return [] if bool(b[1]) == truth else [("false",)]
     if b[0] == "teq":
         return [("teq" if truth else "tne", b[1], b[2])]
+    if b[0] == "boolj":
+        # a boolean built in two arms (`match x { Some(v) => v <= LIMIT, None => false }`): what held on the arm(s) that can produce this truth value
+        return list(b[3] if truth else b[4]) + [("true" if truth else "isfalse", b[:3])]
     return [("true" if truth else "isfalse", b)]
 
 
@@ -432,6 +436,12 @@ class Interp:
                 r = self.arith(op, a, b)
                 if op in ("Add", "Sub", "Mul"):
                     self.eff(node, idx, "ARITH", op=op, a=as_poly(a), b=as_poly(b), checked=False, line=line, how="bare")
+                if op == "Sub" and isinstance(r, Poly) and not r.is_const() and not implies_ge0(st.facts, r):
+                    # an unchecked unsigned subtraction (overflow checks off) that is not known to stay >= 0 may wrap. The value keeps its polynomial
+                    # form (struct invariants such as index <= end are not visible here), but a comparison of exactly this value yields no fact about
+                    # the integer difference: `last = len - 1; assert!(i <= last)` proves nothing on an empty vector
+                    self.eff(node, idx, "WRAPSUB", a=as_poly(a), b=as_poly(b), line=line)
+                    st.wrapped = st.wrapped | frozenset([r])
                 return r
             if op in ("AddWithOverflow", "SubWithOverflow", "MulWithOverflow"):
                 base = op[:3]
@@ -443,7 +453,13 @@ class Interp:
                     return ("pcmp", op, a, b)
                 if self._is_boolish(a) or self._is_boolish(b):
                     return ("bcmp", op, a, b)
-                return ("cmp", op, as_poly(a), as_poly(b))
+                pa, pb = as_poly(a), as_poly(b)
+                if st.wrapped:
+                    if pa in st.wrapped:
+                        pa = Poly.atom(("wrapped", ("poly", pa)))
+                    if pb in st.wrapped:
+                        pb = Poly.atom(("wrapped", ("poly", pb)))
+                return ("cmp", op, pa, pb)
             if op == "Offset":
                 return self.ptr_add(a, as_poly(b), None)
             return ("binop", op, a, b)
@@ -500,7 +516,7 @@ class Interp:
         return ("rv?", rv.get("s", k))
 
     def _is_boolish(self, v):
-        return isinstance(v, tuple) and v and v[0] in ("bconst", "cmp", "not", "teq")
+        return isinstance(v, tuple) and v and v[0] in ("bconst", "cmp", "not", "teq", "boolj")
 
     def is_ptrlike(self, v):
         return isinstance(v, tuple) and v and v[0] in ("ptr", "ref")
@@ -584,6 +600,10 @@ class Interp:
                 if isinstance(vb, Poly) and not isinstance(va, Poly):
                     va = as_poly(va)
             oj = None if va == vb else self._opt_join(gid, k, va, vb, a, b)
+            if oj is None and va != vb:
+                bj = self._bool_join(gid, k, va, vb, a, b)
+                if bj is not None:
+                    oj = (bj, False)
             if va == vb:
                 env[k] = va
             elif oj is not None:
@@ -608,7 +628,10 @@ class Interp:
         facts = a.facts & b.facts
         if facts != a.facts:
             changed = True
-        return State(env, base, ver, facts), changed
+        wrapped = a.wrapped | b.wrapped
+        if wrapped != a.wrapped:
+            changed = True
+        return State(env, base, ver, facts, wrapped), changed
 
     def _opt_join(self, gid, k, va, vb, a, b):
         """join of Some(x) with None (an Option built in two arms of a callee and returned): keep the payload and remember which facts hold on which
@@ -647,6 +670,43 @@ class Interp:
         self.optj[(gid, k)] = new
         return ("optj", gid, k, sv[1]), new != old
 
+    def _bool_join(self, gid, k, va, vb, a, b):
+        """join of two boolean values of which at least one is a constant: remember what held on the arm(s) that can yield true / false"""
+        def shape(v):
+            if isinstance(v, tuple) and v:
+                if v[0] == "bconst" and v[1] in (0, 1):
+                    return "c%d" % v[1]
+                if v[0] in ("cmp", "not", "teq", "pcmp", "bcmp"):
+                    return "x"
+                if v[0] == "boolj" and v[1] == gid and v[2] == k:
+                    return "j"
+            return None
+        sa, sb = shape(va), shape(vb)
+        if sa is None or sb is None or (sa == "x" and sb == "x") or (sa == "j" and sb == "j"):
+            return None
+        joined = a.facts & b.facts
+
+        def sides(v, sh, st):
+            """(facts if this arm yields true, facts if it yields false); None = this arm cannot yield that value"""
+            if sh == "c1":
+                return frozenset(st.facts), None
+            if sh == "c0":
+                return None, frozenset(st.facts)
+            if sh == "x":
+                return frozenset(st.facts) | frozenset(bool_facts(v, True)), frozenset(st.facts) | frozenset(bool_facts(v, False))
+            return frozenset(v[3]) | joined, frozenset(v[4]) | joined      # an earlier join of the same cell
+        ta, fa = sides(va, sa, a)
+        tb, fb = sides(vb, sb, b)
+
+        def meet(x, y):
+            if x is None:
+                return y if y is not None else frozenset()
+            if y is None:
+                return x
+            return x & y
+        tf, ff = meet(ta, tb) - joined, meet(fa, fb) - joined
+        return ("boolj", gid, k, tf, ff)
+
     def optj_facts(self, d, val, eq):
         """facts implied by `discriminant(optj) == val` (eq) / `!= val`"""
         if isinstance(d, Poly) and len(d.m) == 1:
@@ -676,6 +736,16 @@ class Interp:
             work.discard(gid)
             st = self.in_state[gid].copy()
             outs = self.step(gid, st)
+            # several out-states towards the same successor (a predicate closure returning true / false) are joined first
+            grouped = {}
+            order_ = []
+            for (succ, ost) in outs:
+                if succ in grouped:
+                    grouped[succ], _ch = self.join(succ, grouped[succ], ost)
+                else:
+                    grouped[succ] = ost
+                    order_.append(succ)
+            outs = [(succ, grouped[succ]) for succ in order_]
             for (succ, ost) in outs:
                 self.edges.add((gid, succ))
                 self.out_states[(gid, succ)] = ost
@@ -686,7 +756,7 @@ class Interp:
                     # a node with one predecessor takes that predecessor's latest out-state (joining it with its own earlier visits would
                     # turn every value computed inside a loop body into an opaque phi)
                     cur = self.in_state[succ]
-                    if cur.env != ost.env or cur.base != ost.base or cur.ver != ost.ver or cur.facts != ost.facts:
+                    if cur.env != ost.env or cur.base != ost.base or cur.ver != ost.ver or cur.facts != ost.facts or cur.wrapped != ost.wrapped:
                         self.in_state[succ] = ost
                         work.add(succ)
                 else:
@@ -838,7 +908,7 @@ class Interp:
                     nf = []
                     for vv in vals:
                         nf += self.switch_facts(d, int(vv), False) + self.optj_facts(d, int(vv), False)
-                    if isinstance(d, tuple) and d and d[0] in ("cmp", "not", "teq", "bcmp", "pcmp", "call", "typetest") and vals == ["0"]:
+                    if isinstance(d, tuple) and d and d[0] in ("cmp", "not", "teq", "bcmp", "pcmp", "call", "typetest", "boolj") and vals == ["0"]:
                         nf = bool_facts(d, True)
                 if ("false",) in nf:
                     continue
@@ -876,15 +946,9 @@ class Interp:
                 rty = self.local_ty(inst, 0)
                 dpath, dty = self.eval_place(st, inst.parent, ct["dest"])
                 if cnode.closure_call:
-                    # then / map: the closure's result becomes Some(result)
-                    self.kill_under(st, dpath)
-                    self.explode_parents(st, dpath)
-                    leaf = self.load(st, rpath, rty) if is_scalar_ty(rty) else st.env.get(rpath)
-                    if leaf is not None:
-                        st.env[dpath] = ("some", leaf)
-                    else:
-                        self.copy_tree(st, rpath, (dpath[0], dpath[1] + ("as:Some", "0")))
-                        st.env[(dpath[0], dpath[1] + ("$discr",))] = Poly.const(1)
+                    outs = self.closure_return(st, inst, cnode, rpath, rty, dpath)
+                    self.eff(node, nidx, "LEAVE", callee=inst.path(), call_gid=inst.call_gid, line=line)
+                    return [(s, o) for o in outs for s in normal_succs()]
                 elif is_scalar_ty(rty):
                     self.store(st, dpath, self.load(st, rpath, rty))
                 else:
@@ -973,57 +1037,138 @@ class Interp:
             res += [(s, ust) for s in unwind]
         return res
 
+    def _opt_parts(self, st, sel):
+        """discriminant polynomial and payload of an Option value"""
+        if isinstance(sel, Tree):
+            d = st.env.get((sel.path[0], sel.path[1] + ("$discr",)))
+            d = d if isinstance(d, Poly) else Poly.atom(("discr", ("tree", sel.path)))
+            return d, Tree((sel.path[0], sel.path[1] + ("as:Some", "0")), None)
+        if isinstance(sel, tuple) and sel and sel[0] == "some":
+            return Poly.const(1), sel[1]
+        if isinstance(sel, tuple) and sel and sel[0] == "none":
+            return Poly.const(0), None
+        return Poly.atom(("discr", sel if not isinstance(sel, Poly) else ("poly", sel))), self.project(sel, ("as:Some", "0"), None)
+
     def closure_call(self, gid, node, inst, st, t, nidx, line, args, normal, unwind):
-        """`cond.then(closure)` / `opt.map(closure)`: the closure body is expanded; the state splits on the condition / discriminant"""
+        """core combinators that only invoke the closure they are given (`cond.then(f)`, `opt.map(f)`, `opt.and_then(f)`, `opt.filter(p)`, `opt.map_or(d, f)`)
+        and direct calls of a closure value: the closure body is part of the graph; the state splits on the condition / discriminant"""
+        from .graph import CLOSURE_ARG
         ci = node.callee_inst
         kind = node.closure_call
         entry = ci.bmap[0]
         targets = [s for s in normal if s != entry]
         dpath, dty = self.eval_place(st, inst, t["dest"])
         res = []
-        sel = args[0]
+        ca = CLOSURE_ARG[kind]
+        payload = None
         if kind == "then":
-            yes_f, no_f = bool_facts(sel, True), bool_facts(sel, False)
-            payload = None
+            yes_f, no_f = bool_facts(args[0], True), bool_facts(args[0], False)
+        elif kind == "call":
+            yes_f, no_f = [], [("false",)]
         else:
-            if isinstance(sel, Tree):
-                d = st.env.get((sel.path[0], sel.path[1] + ("$discr",)))
-                d = d if isinstance(d, Poly) else Poly.atom(("discr", ("tree", sel.path)))
-                payload = Tree((sel.path[0], sel.path[1] + ("as:Some", "0")), None)
-            elif isinstance(sel, tuple) and sel and sel[0] == "some":
-                d, payload = Poly.const(1), sel[1]
-            elif isinstance(sel, tuple) and sel and sel[0] == "none":
-                d, payload = Poly.const(0), None
-            else:
-                d = Poly.atom(("discr", sel if not isinstance(sel, Poly) else ("poly", sel)))
-                payload = self.project(sel, ("as:Some", "0"), None)
-            yes_f, no_f = self.switch_facts(d, 1, True), self.switch_facts(d, 0, True)
+            d, payload = self._opt_parts(st, args[0])
+            yes_f = self.switch_facts(d, 1, True) + self.optj_facts(d, 1, True)
+            no_f = self.switch_facts(d, 0, True) + self.optj_facts(d, 0, True)
 
         def feasible(nf):
             return ("false",) not in nf and not (st.facts and any(contradicts(st.facts, f) for f in nf))
         if feasible(no_f):
             s0 = st.copy()
             s0.facts = s0.facts | frozenset(no_f)
-            self.store(s0, dpath, ("none",))
+            if kind == "map_or":
+                self.assign(s0, dpath, dty, args[1])
+            else:
+                self.store(s0, dpath, ("none",))
             res += [(s, s0) for s in targets]
         if feasible(yes_f):
             s1 = st
             s1.facts = s1.facts | frozenset(yes_f)
-            self.eff(node, nidx, "ENTER", callee=ci.path(), args=args[1:], line=line, facts=s1.facts, cinst=ci, closure=kind)
-            binds = [args[1]] + ([payload] if kind == "map" else [])
-            for i, a in enumerate(binds):
-                cell = (("L", ci.loff + i + 1), ())
-                lty = self.local_ty(ci, i + 1)
-                if i == 0 and lty.get("k") == "ref" and "move" in t["args"][1] or i == 0 and lty.get("k") == "ref" and "copy" in t["args"][1]:
-                    # Fn / FnMut closure called once: the body takes the environment by reference
-                    ep, _ = self.eval_place(s1, inst, t["args"][1].get("move") or t["args"][1].get("copy"))
-                    self.store(s1, cell, ("ref", ep))
-                elif isinstance(a, Tree):
-                    self.copy_tree(s1, a.path, cell)
+            self.eff(node, nidx, "ENTER", callee=ci.path(), args=args[ca + 1:], line=line, facts=s1.facts, cinst=ci, closure=kind)
+            # the closure environment
+            cell = (("L", ci.loff + 1), ())
+            lty = self.local_ty(ci, 1)
+            cop = t["args"][ca]
+            cplace = cop.get("move") or cop.get("copy")
+            cval = args[ca]
+            if lty.get("k") == "ref" and not (isinstance(cval, tuple) and cval and cval[0] == "ref") and cplace is not None:
+                # Fn / FnMut closure passed by value and called once: the body takes the environment by reference
+                ep, _ = self.eval_place(s1, inst, cplace)
+                self.store(s1, cell, ("ref", ep))
+            elif lty.get("k") != "ref" and isinstance(cval, tuple) and cval and cval[0] == "ref":
+                self.copy_tree(s1, cval[1], cell)        # FnOnce body, called through a reference (shim): copy of the environment
+            elif isinstance(cval, Tree):
+                self.copy_tree(s1, cval.path, cell)
+            else:
+                self.store(s1, cell, cval)
+            # the closure's own parameters
+            if kind == "call":
+                tup = args[1] if len(args) > 1 else None
+                n_par = ci.fn.get("arg_count", 1) - 1
+                for i in range(n_par):
+                    pc = (("L", ci.loff + 2 + i), ())
+                    if isinstance(tup, Tree):
+                        self.copy_tree(s1, (tup.path[0], tup.path[1] + (str(i),)), pc)
+                    elif isinstance(tup, tuple) and tup and tup[0] == "pair" and i < 2:
+                        self.store(s1, pc, tup[1 + i])
+                    elif tup is not None and n_par == 1 and not (isinstance(tup, tuple) and tup and tup[0] == "unit"):
+                        self.store(s1, pc, self.project(tup, ("0",), None))
+            elif kind in ("map", "and_then", "map_or", "filter"):
+                pc = (("L", ci.loff + 2), ())
+                if kind == "filter":
+                    # the predicate takes a reference to the payload: give the payload a cell of its own
+                    tcell = (("T", gid), ())
+                    if isinstance(payload, Tree):
+                        self.copy_tree(s1, payload.path, tcell)
+                    else:
+                        self.store(s1, tcell, payload)
+                    self.store(s1, pc, ("ref", tcell))
+                elif isinstance(payload, Tree):
+                    self.copy_tree(s1, payload.path, pc)
                 else:
-                    self.store(s1, cell, a)
+                    self.store(s1, pc, payload)
             res.append((entry, s1))
         return res
+
+    def closure_return(self, st, inst, cnode, rpath, rty, dpath):
+        """-> list of states leaving the closure towards the combinator's continuation"""
+        kind = cnode.closure_call
+        leaf = self.load(st, rpath, rty) if is_scalar_ty(rty) else st.env.get(rpath)
+        if kind in ("and_then", "map_or", "call"):
+            if leaf is not None:
+                self.assign(st, dpath, None, leaf)
+            else:
+                self.copy_tree(st, rpath, dpath)
+            return [st]
+        if kind == "filter":
+            tcell = (("T", cnode.gid), ())
+            pv = st.env.get(tcell)
+            outs = []
+            for truth in (True, False):
+                nf = bool_facts(leaf, truth) if leaf is not None else []
+                if ("false",) in nf or (st.facts and any(contradicts(st.facts, f) for f in nf)):
+                    continue
+                s2 = st.copy()
+                s2.facts = s2.facts | frozenset(nf)
+                self.kill_under(s2, dpath)
+                self.explode_parents(s2, dpath)
+                if not truth:
+                    s2.env[dpath] = ("none",)
+                elif pv is not None:
+                    s2.env[dpath] = ("some", pv)
+                else:
+                    self.copy_tree(s2, tcell, (dpath[0], dpath[1] + ("as:Some", "0")))
+                    s2.env[(dpath[0], dpath[1] + ("$discr",))] = Poly.const(1)
+                outs.append(s2)
+            return outs
+        # then / map: the closure's result becomes Some(result)
+        self.kill_under(st, dpath)
+        self.explode_parents(st, dpath)
+        if leaf is not None:
+            st.env[dpath] = ("some", leaf)
+        else:
+            self.copy_tree(st, rpath, (dpath[0], dpath[1] + ("as:Some", "0")))
+            st.env[(dpath[0], dpath[1] + ("$discr",))] = Poly.const(1)
+        return [st]
 
     # ------------------------------------------------------------------ CFG restricted to the edges taken under this arm assignment
     def _succs(self, g, normal_only=True):
